@@ -331,6 +331,25 @@ const DIRECTED: &[(&str, &str, &str)] = &[
     ("plus_on_top_of_star_quantifier", "(identifier)*+ @xs { node n attr (n) x = @xs }", "x = y\n"),
 ];
 
+/// A directed or seed text that neither hangs nor hits a known panic, with a source (for C02's
+/// strict/lazy differential).
+pub fn differential_text(rng: &mut Rng) -> (&'static str, String, String) {
+    // known panics / hangs, and programs outside the order-insensitive fragment (mutable scoped
+    // variables, a scope that is read through the variable being defined)
+    const SKIP: &[&str] = &["capture_in_shorthand", "shorthand_cycle", "plus_on_top_of_star_quantifier", "scoped_set_target", "scope_read_through_same_name", "scoped_definition_while_forcing"];
+    loop {
+        if rng.chance(1, 4) {
+            return ("seed", (*rng.pick(SEEDS)).to_string(), py::gen_any_source(rng, 6, 20));
+        }
+        let (name, t, s) = *rng.pick(DIRECTED);
+        if SKIP.contains(&name) {
+            continue;
+        }
+        let source = if rng.chance(1, 2) { s.to_string() } else { py::gen_any_source(rng, 6, 20) };
+        return (name, t.to_string(), source);
+    }
+}
+
 fn render_load_error(e: &tree_sitter_graph::ParseError, text: &str, out: &mut Out, case: &serde_json::Value) -> bool {
     let r = catch(|| {
         let a = format!("{}", e);
